@@ -292,6 +292,7 @@ def symbolic_qubit_state(ctx, ex, apps, tag="q"):
             La = ums[a]
             alts.append(z3.And(wa(p) == k, wi(p) >= 0, wi(p) < La.length, z3.Not(z3.Select(La.isnone, wi(p))), z3.Select(La.val, wi(p)) == p))
         inv.append(z3.ForAll([p], z3.Implies(z3.Select(used.arr, p), z3.And(p >= 0, z3.Or(alts)))))
+        it.notes["owner_fns"] = (wa, wi)
         for f in inv:
             it.assume.append(f)
         it._solver = None
